@@ -1204,6 +1204,15 @@ Section Screens.
       wcall (start_input_thread_spec m (negb skip)) Ps pf HI1 x; [ic_view HG | exact HI1 | qstep; exact HI1].
     Qed.
 
+    (* the request's arguments are bound into the handler's callback (fix of F15), then it asks *)
+    Lemma handler_bind_args_spec m args skip :
+      spec n (wr (upd_ih m (fun h => h <| ih_args := args |>)) ;; handler_get_input m skip).
+    Proof.
+      apply spec_intro. intros Ps pf c u HI. ic_open HI pm rdy HG.
+      unfold handler_get_input. repeat wstep.
+      wcall (start_input_thread_spec m (negb skip)) Ps pf HI1 x; [ic_view HG | exact HI1 | qstep; exact HI1].
+    Qed.
+
     Lemma new_input_handler_spec src owner cb k :
       (forall m, spec n (k m)) -> spec n (new_input_handler src owner cb k).
     Proof.
@@ -1219,8 +1228,9 @@ Section Screens.
       - repeat wstep. ic_view HG.
       - repeat wstep.
         wcall (new_input_handler_spec (Some scr) scr true
-                 (fun m => handler_get_input m (sc_skip_check (specs scr)))) Ps pf HI1 x;
-          [intros m; apply handler_get_input_spec | ic_view HG | exact HI1 | qstep; exact HI1].
+                 (fun m => wr (upd_ih m (fun h => h <| ih_args := args |>)) ;;
+                           handler_get_input m (sc_skip_check (specs scr)))) Ps pf HI1 x;
+          [intros m; apply handler_bind_args_spec | ic_view HG | exact HI1 | qstep; exact HI1].
     Qed.
 
 
